@@ -411,6 +411,119 @@ def server_path(ctx, K):
                 ctx.disagree("server-publickey-auth", dict(case, request=r[:300]), m, impl)
 
 
+def server_sequences(ctx, K):
+    """several publickey requests on ONE connection (one real AuthHandler): an unsigned query naming algorithm A
+    (answered PK_OK when A is enabled), then a signed request naming algorithm B for the same user and key — all
+    pairs A, B over all disabled subsets; also a failed signed attempt first, and a query for another key first.
+    A raw scripted client is required: paramiko's own client never sends the query."""
+    import paramiko
+    from paramiko.auth_handler import AuthHandler
+    from paramiko.common import AUTH_SUCCESSFUL
+    from paramiko.message import Message
+    from paramiko.transport import Transport
+
+    class Srv(paramiko.ServerInterface):
+        def check_auth_publickey(self, username, key):
+            return AUTH_SUCCESSFUL
+
+        def get_allowed_auths(self, username):
+            return "publickey"
+
+    sid = b"\x33" * 32
+    user = b"alice"
+    names6 = RSA_NAMES + [n + SUFFIX for n in RSA_NAMES]
+    rsa_subsets = [list(c) for r in range(4) for c in itertools.combinations(RSA_NAMES, r)]
+    kinds = {52: "success", 51: "failure", 60: "pkok", 1: "disconnect"}
+
+    def keyblob_of(name):
+        return K.cert["rsa"] if name.endswith(SUFFIX) else K.rsa.asbytes()
+
+    def request(decl, keyblob, sig):
+        m = Message()
+        m.add_string(user)
+        m.add_string(b"ssh-connection")
+        m.add_string(b"publickey")
+        m.add_boolean(sig is not None)
+        m.add_string(decl.encode())
+        m.add_string(keyblob)
+        if sig is not None:
+            m.add_string(sig)
+        m.rewind()
+        return m
+
+    def signed(decl, keyblob, blob_name=None, hash_name=None):
+        data = session_blob(sid, user, decl.encode(), keyblob)
+        body = K.rsa_body(data, hash_name or base_name(decl))
+        name = (blob_name if blob_name is not None else base_name(decl)).encode()
+        return s_(name) + s_(body), K.rsa_flags(data, body)
+
+    plans = []  # (disabled, [(declared, keyblob, sig, flags, label)])
+    for dis in rsa_subsets:
+        for A, B in itertools.product(names6, names6):
+            kb = keyblob_of(B)
+            if keyblob_of(A) != kb:
+                continue  # the sequence is about ONE key (plain with plain, cert with cert)
+            sg, fl = signed(B, kb)
+            plans.append((dis, [(A, kb, None, "0000", "query"), (B, kb, sg, fl, "signed")]))
+        for B in RSA_NAMES:
+            kb = keyblob_of(B)
+            bad, flb = signed(B, kb, blob_name="ssh-dss")
+            good, flg = signed(B, kb)
+            plans.append((dis, [(B, kb, bad, flb, "bad-signed"), (B, kb, good, flg, "signed")]))
+            other = K.ec["ecdsa-sha2-nistp256"].asbytes()
+            plans.append((dis, [("rsa-sha2-512", kb, None, "0000", "query"),
+                                ("rsa-sha2-512", kb, None, "0000", "query"), (B, kb, good, flg, "signed")]))
+            down, fld = signed(B, kb, blob_name="ssh-rsa", hash_name="ssh-rsa")
+            plans.append((dis, [("rsa-sha2-512", kb, None, "0000", "query"), (B, kb, down, fld, "sha1-signed")]))
+            del other
+    a, b = socket.socketpair()
+    reqs, cases = [], []
+    try:
+        for dis, seq in plans:
+            t = paramiko.Transport(a, disabled_algorithms={"pubkeys": list(dis)})
+            t.server_mode = True
+            t.server_object = Srv()
+            t.session_id = sid
+            sent = []
+            t._send_message = lambda m, sent=sent: sent.append(m.asbytes()[0])
+            ah = AuthHandler(t)
+            t.auth_handler = ah
+            outs = []
+            parse, ident, _k = parse_outcome(Transport, seq[-1][0], seq[-1][1])
+            for decl, kb, sg, fl, label in seq:
+                n0 = len(sent)
+                try:
+                    ah._parse_userauth_request(request(decl, kb, sg))
+                    out = "+".join(kinds.get(x, str(x)) for x in sent[n0:]) or "nothing"
+                except Exception as e:
+                    out = "raised:" + exc_site(e)
+                outs.append(out)
+                # ---- oracle: success only for a request whose OWN declared algorithm is enabled and named by its blob
+                if "success" in out:
+                    if sg is None or base_name(decl) in dis or blob_algo(sg) != base_name(decl).encode():
+                        ctx.fail("sig-algo-mismatch-accepted:auth-after-query",
+                                 {"disabled": dis, "sequence": [(x[0], x[4]) for x in seq], "accepted": decl},
+                                 "request %r (%s) authenticated after %r although %r is %s"
+                                 % (decl, label, [(x[0], x[4]) for x in seq[:len(outs) - 1]], base_name(decl),
+                                    "disabled" if base_name(decl) in dis else "not what the blob names"))
+                if "disconnect" in out or "success" in out:
+                    break
+            impl = "+".join(outs)
+            reqs.append("authseq %s 1 %s %s %s" % (names_tok(dis), parse, hx(ident), " ".join(
+                "%s %s %s" % (hx(d.encode()), fl, "none" if sg is None else hx(sg)) for d, kb, sg, fl, label in seq)))
+            cases.append(({"disabled": dis, "sequence": [(x[0], x[4]) for x in seq]}, impl))
+            ctx.case(("authseq", tuple(dis), tuple((x[0], x[4]) for x in seq)), True)
+            ctx.dist("authseq:" + impl)
+    finally:
+        a.close()
+        b.close()
+    model = ctx.driver("C07", reqs)
+    if model is not None:
+        for (case, impl), m, r in zip(cases, model, reqs):
+            if m != impl:
+                ctx.disagree("server-publickey-sequence", dict(case, request=r[:200]), m, impl)
+
+
 # ------------------------------------------------------------------------------------------ end to end
 def downgrading(key, forced):
     """the same private key, but every signature is made with `forced` whatever algorithm is asked for"""
@@ -498,13 +611,107 @@ def e2e(ctx, K):
             e.close()
 
 
+def e2e_raw_client(ctx, K):
+    """end to end with a RAW scripted client (real transports, real server AuthHandler inside Transport.run):
+    service request, an unsigned publickey query naming an enabled algorithm, then a signed request for the same
+    key naming (and signed with) another algorithm."""
+    import queue
+    import threading
+    import paramiko
+    from paramiko.common import AUTH_SUCCESSFUL
+    from paramiko.message import Message
+    from pv.core import InfraError
+
+    class Srv(paramiko.ServerInterface):
+        def check_auth_publickey(self, username, key):
+            return AUTH_SUCCESSFUL
+
+        def get_allowed_auths(self, username):
+            return "publickey"
+
+    class Raw:
+        def __init__(self):
+            self.q = queue.Queue()
+            self._handler_table = {t: (lambda m, t=t: self.q.put(t)) for t in range(5, 80)}
+
+        def abort(self):
+            self.q.put(None)
+
+    def msg(user, decl, keyblob, sig):
+        m = Message()
+        m.add_byte(b"\x32")
+        m.add_string(user)
+        m.add_string(b"ssh-connection")
+        m.add_string(b"publickey")
+        m.add_boolean(sig is not None)
+        m.add_string(decl.encode())
+        m.add_string(keyblob)
+        if sig is not None:
+            m.add_string(sig)
+        return m
+
+    kb = K.rsa.asbytes()
+    for sdis, query, decl in [(["ssh-rsa"], "rsa-sha2-512", "ssh-rsa"), (["rsa-sha2-256"], "rsa-sha2-512", "rsa-sha2-256"),
+                              (["ssh-rsa", "rsa-sha2-256"], "rsa-sha2-512", "rsa-sha2-256"), (["ssh-rsa"], "rsa-sha2-256", "rsa-sha2-512"),
+                              ([], "rsa-sha2-512", "ssh-rsa")]:
+        e = L.E2E("c25519", K.ed)
+        e.ts.disabled_algorithms = {"pubkeys": list(sdis)}
+        case = {"server_disabled_pubkeys": sdis, "query": query, "signed_request": decl, "level": "end-to-end raw client"}
+        try:
+            e.ts.start_server(event=threading.Event(), server=Srv())
+            e.tc.start_client(timeout=60)
+            raw = Raw()
+            e.tc.auth_handler = raw
+            m = Message()
+            m.add_byte(b"\x05")
+            m.add_string(b"ssh-userauth")
+            e.tc._send_message(m)
+            seen = []
+
+            def wait_for(types):
+                while True:
+                    try:
+                        t = raw.q.get(timeout=60)
+                    except queue.Empty:
+                        raise InfraError("C07: no reply from the server within 60 s")
+                    seen.append(t)
+                    if t is None or t in types:
+                        return t
+
+            if wait_for({6}) != 6:
+                ctx.disagree("raw-client-service-request", case, "SERVICE_ACCEPT", repr(seen))
+                continue
+            e.tc._send_message(msg(b"alice", query, kb, None))
+            r1 = wait_for({60, 51, 1})
+            data = session_blob(e.tc.session_id, b"alice", decl.encode(), kb)
+            sig = s_(base_name(decl).encode()) + s_(K.rsa_body(data, base_name(decl)))
+            r2 = None
+            if r1 == 60:
+                e.tc._send_message(msg(b"alice", decl, kb, sig))
+                r2 = wait_for({52, 51, 1})
+            authed = e.ts.is_authenticated() or r2 == 52
+            ctx.case(("e2e-raw", tuple(sdis), query, decl), True)
+            ctx.dist("e2e-raw:query-%s-then-%s:%s" % (query, decl, {52: "authenticated", 51: "failure", 1: "disconnect", None: "closed"}.get(r2, r2)))
+            enabled = base_name(decl) not in sdis
+            if authed and not enabled:
+                ctx.fail("sig-algo-mismatch-accepted:auth-after-query", case,
+                         "server authenticated a request declaring and signed with the disabled %r after answering PK_OK to a query for %r"
+                         % (decl, query))
+            if enabled and r1 == 60 and not authed:
+                ctx.disagree("raw-client-honest-sequence-refused", case, "authenticated", repr(seen))
+        finally:
+            e.close()
+
+
 def run(ctx):
     ctx.rule = ("EXHAUSTIVE over: 8 disabled subsets of {ssh-rsa, rsa-sha2-256, rsa-sha2-512} x 6 negotiated/declared RSA "
                 "names (plain + cert, cert blobs from the bundled certificates) x 12 blob algorithm names (the 3 RSA names, "
                 "their cert forms, empty, foreign, non-UTF-8, case/space variants) x 4 signature bodies (made with SHA-1, "
                 "SHA-256, SHA-512, over other data) on BOTH real paths (_parse_kex_init + _verify_key; "
                 "_parse_userauth_request); ECDSA P-256/384/521 and Ed25519 keys x 8-9 negotiated/declared names x 10 blob "
-                "names x good/bad body x 3 disabled sets; plus no-signature and callback-refuses requests, seeded "
+                "names x good/bad body x 3 disabled sets; request SEQUENCES on one real AuthHandler (unsigned query naming A, "
+                "then signed request naming B, all 18 same-key pairs x 8 disabled subsets; failed attempt then good one; "
+                "two queries then signed; SHA-1-signed after a query) and through a raw scripted client end to end; plus no-signature and callback-refuses requests, seeded "
                 "disabled sets for preferred_keys/pubkeys, replace() strings. non-trivial = blob name differs from the "
                 "negotiated/declared base name")
     ctx.exhaustive = True
@@ -515,7 +722,9 @@ def run(ctx):
     tables(ctx)
     client_path(ctx, K)
     server_path(ctx, K)
+    server_sequences(ctx, K)
     e2e(ctx, K)
+    e2e_raw_client(ctx, K)
 
 
 META = {
@@ -528,7 +737,9 @@ META = {
               "hash handed to the library is the negotiated algorithm's; ECDSA/Ed25519 keys are accepted only under "
               "their own name. Server: publickey auth succeeds only with a signature whose blob names the declared "
               "algorithm (cert stripped), which is in preferred_pubkeys (default and not disabled), after the callback "
-              "accepted the key. A witness theorem shows the unrepaired logic accepted rsa-sha2-512/ssh-rsa. Tied to "
+              "accepted the key; this holds for any SEQUENCE of requests on one connection (session_success: queries "
+              "answered PK_OK, failed attempts and signed requests in any order never widen what is accepted). "
+              "A witness theorem shows the unrepaired logic accepted rsa-sha2-512/ssh-rsa. Tied to "
               "the real _parse_kex_init+_verify_key and _parse_userauth_request by an exhaustive differential run."),
     "note": ("Parameters (trusted): the crypto library's verify verdict, key-blob parsing by the key classes, the "
              "server's check_auth_publickey callback. The client-side choice of the DECLARED algorithm "
